@@ -14,7 +14,11 @@ TECHNIQUE = ("TLC enumerates value-class vectors over the field kinds the librar
              "component State, a concrete value per vector (plus seeded per-position class choices), and round-trips it "
              "through the real path: messages inside a real port (SaveCheckpoint/LoadCheckpoint into a rebuilt port), events "
              "in a real SerialEngine queue (loaded into a rebuilt engine and run), State inside a real modeling.Component "
-             "built by the real builder with the package's own Spec/State/Resources. A source scan fails the check as broken "
+             "built by the real builder with the package's own Spec/State/Resources (and, for four State types, a real "
+             "modeling.EventDrivenComponent). Every checkpoint is restored three ways: into a rebuilt object, into an object of "
+             "the same type that already holds a different value W (other map keys, longer slices, non-empty omitempty fields, "
+             "other container content, other buffered messages, another clock), and back into the saved live object after it "
+             "was changed to W; the result must equal the saved value each time — nothing of W may survive. A source scan fails the check as broken "
              "when a DefineProtocol/RegisterMsg/RegisterEvent/NewBuilder call site is not covered by the lists.")
 LEVEL_TEXT = "bounded exploration of boundary value classes on every listed type; real checkpoint paths"
 LEVEL_NOTE = ("Input-space property at the edge of the technique: the model only organises the space of values and predicts "
@@ -109,7 +113,8 @@ def run(ck):
     ck.cov["rule"] = ("one case = one concrete value of one library type (message / event / State) taken through its real "
                       "checkpoint path and compared with the original by type and reflect.DeepEqual semantics (nil vs empty "
                       "and unexported fields count; inside Buffer/Pipeline/lruset.Set a nil and an empty internal collection "
-                      "are the same value). Non-trivial = the value differs from the all-base vector.")
+                      "are the same value), after each of the three restores (fresh / dirty_target / same_live). Non-trivial = the value "
+                      "differs from the all-base vector.")
     ck.assumptions += [
         "values are synthetic: one class per field kind (TLC vectors) or per position (seeded); states reached by workloads are not replayed",
         "fields documented as not checkpointed are left zero: %s" % ", ".join(out["not_checkpointed_fields"]),
@@ -128,23 +133,19 @@ def run(ck):
     ck.cov["distinct_nontrivial"] += out["evaluations"] - 2 * n_types   # minus the zero and the all-base value of each type
 
     # real outcome vs the model's prediction, per (type, vector)
-    failing = collections.defaultdict(dict)
+    failing = collections.defaultdict(set)
+    unpredicted = []
     for f in out["failures"]:
         if f.get("vector") and "all" not in f["vector"]:
-            failing[f["type"]][core.canon(f["vector"])] = f
-    unpredicted = []
-    for name, t in types.items():
-        feats = set(t["features"])
-        for v in vectors:
-            k = core.canon(v)
+            k = core.canon(f["vector"])
+            failing[f["type"]].add(k)
             loss = predicted[k]
-            f = failing[name].get(k)
-            if f is None:
-                continue
             explained = (f["feature"] == "nonutf8_string" and "string" in loss) or \
                         (f["feature"] == "omitempty_collection" and loss & {"bytes_omitempty", "slice_omitempty"})
             if not explained:
                 unpredicted.append(f)
+    for name, t in types.items():
+        feats = set(t["features"])
         # the single-deviation vectors the model says must lose data do lose it on types that have such fields
         # (an omitempty slice nested in another slice is only reached by the seeded per-position values: a vector gives
         # every slice the same class, so an empty inner slice comes with an empty outer one)
@@ -161,11 +162,11 @@ def run(ck):
         if f["feature"] == "harness":
             raise core.Broken("driver failure on %s: %s" % (f["type"], f["detail"]))
         gotype = types[f["type"]]["go_type"]
-        key = {"feature": f["feature"], "type": gotype, "path": f["path"]}
-        by_feature[(f["feature"], f["path"])] += 1
-        desc = "%s (%s checkpoint): value built from %s does not come back equal: %s" % (
-            f["type"], f["path"], f.get("vector") or f.get("seeded"), f["detail"])
-        ck.report(key, desc, {"driver": "library", "type": f["type"], "vector": f.get("vector"), "seeded": f.get("seeded"),
+        key = {"feature": f["feature"], "type": gotype, "path": f["path"], "variant": f["variant"]}
+        by_feature[(f["feature"], f["path"] + ":" + f["variant"])] += 1
+        desc = "%s (%s checkpoint, restore variant %s): value built from %s does not come back equal: %s" % (
+            f["type"], f["path"], f["variant"], f.get("vector") or f.get("seeded"), f["detail"])
+        ck.report(key, desc, {"driver": "library", "type": f["type"], "variant": f["variant"], "vector": f.get("vector"), "seeded": f.get("seeded"),
                               "seed": ck.seed, "detail": f["detail"]})
     ck.cov["failures_by_feature_and_path"] = {"%s/%s" % k: v for k, v in by_feature.items()}
     for name in list(types)[:: max(1, n_types // 5)][:5]:
